@@ -675,6 +675,11 @@ unsigned cmb_random_loaded_dice(const unsigned n, const double *pa)
         }
     }
 
+    if (ui >= n) {
+        /* The probabilities sum to slightly less than one and x fell in the gap */
+        ui = n - 1u;
+    }
+
     cmb_assert_debug(ui < n);
     return ui;
 }
